@@ -26,6 +26,7 @@ pub struct Opts {
     pub stack: usize,
     pub seed: u64,
     pub rounds: usize,
+    pub idle_every: usize,
 }
 
 /// Renames everything thread 1 did in a one-thread behaviour so that it is thread `t`'s
@@ -169,6 +170,27 @@ pub fn run(input: &str, output: &str, opts: Opts) -> std::io::Result<i32> {
                 }
             })
             .join();
+        }
+        // "Delivery needs no further call": every so often nobody flushes until the reporter has been
+        // quiet for 400 ms (more than a thousand report intervals); whatever is due must be there by then
+        if opts.idle_every > 0 && round % opts.idle_every == opts.idle_every - 1 {
+            let done_us = rt::mono_us() as u64;
+            let start = std::time::Instant::now();
+            let mut seen = s.nrecs.load(Ordering::SeqCst);
+            let mut stable = std::time::Instant::now();
+            while start.elapsed() < Duration::from_secs(5) {
+                std::thread::sleep(Duration::from_millis(2));
+                let now = s.nrecs.load(Ordering::SeqCst);
+                if now != seen {
+                    seen = now;
+                    stable = std::time::Instant::now();
+                } else if stable.elapsed() >= Duration::from_millis(400) {
+                    break;
+                }
+            }
+            let last = s.last_rec_us.load(Ordering::SeqCst);
+            emit(json!({"ev":"idle","waited_us":start.elapsed().as_micros() as u64,
+                "delay_us": if last > done_us { last - done_us } else { 0 }}));
         }
         // two report intervals and two explicit cycles later everything must have arrived
         std::thread::sleep(Duration::from_micros(opts.interval_us * 3 + 500));
